@@ -139,7 +139,7 @@ theorem traverse_pure {α β : Type} (h : α → β) (l : List α) :
 /-- the rendering without values, as a pure function of the state -/
 def Service.plain (iids : Nat → Option Nat) (sv : Service V P) : SvcRep V P :=
   { iid := iids sv.obj, typ := sv.typ, chars := sv.chars.map (fun c => c.baseRep (iids c.obj)),
-    primary := sv.primary }
+    primary := sv.primary, linked := sv.linked.map iids }
 
 def Accessory.plain (a : Accessory V P) : AccRep V P :=
   { aid := a.aid, services := a.services.map (Service.plain a.iidm.iids) }
